@@ -72,6 +72,8 @@ class Corpus:
             irng = random.Random(self.seed * 7919 + 13)
             for text in GD.interactions(irng):
                 self.add_text(text, origin="interactions")
+            for text in GD.composed(irng, 10 if self.tier == "quick" else 80):
+                self.add_text(text, origin="composed")
         tries = 0
         while len(self.descs) < self.n_desc + len(self.extra_texts) and tries < self.n_desc * 3:
             tries += 1
